@@ -39,6 +39,14 @@ fn exercise<D: AsRef<[u8]>>(f: &Fst<D>, kvs: &[Kv], version: u64, auts: &[TableD
     if f.len() != kvs.len() || f.is_empty() != kvs.is_empty() {
         return Err(format!("len() = {}", f.len()));
     }
+    // by hand through the public node API
+    if deep {
+        let walked = walk_nodes(f, kvs.len() + 10)?;
+        n += 1;
+        if walked != kvs {
+            return Err(format!("walking root()/node()/transitions() gave {} expected {}", kvs_str(&walked), kvs_str(kvs)));
+        }
+    }
     let want_verify = if version >= 3 { "Ok" } else { "ChecksumMissing" };
     let v = f.verify();
     if err_kind(&v) != want_verify {
@@ -155,6 +163,23 @@ fn all_containers(bytes: &[u8], kvs: &[Kv], version: u64, auts: &[TableDfa], mma
         n += exercise(s0.map_data(|_| Cow::Borrowed(bytes)).map_err(e)?.as_fst(), kvs, version, auts, false)?;
         if Fst::new(bytes.to_vec()).map_err(e)?.map_data(|mut v| { v.truncate(9); v }).is_ok() {
             return Err("map_data to 9 bytes of the file returned Ok".into());
+        }
+        // clone_from into readers that held other files (of the same and of other versions)
+        for ov in [version % 3 + 1] {
+            let other = crate::codec::encode(&[(b"zz".to_vec(), 1), (b"zzz".to_vec(), 2)], &opts(ov, Layout::Shared, false));
+            let mut slot = Fst::new(other.clone()).map_err(e)?;
+            slot.clone_from(&Fst::new(bytes.to_vec()).map_err(e)?);
+            n += exercise(&slot, kvs, version, auts, false)?;
+            let mut slots = vec![Fst::new(other.clone()).map_err(e)?, Fst::new(other).map_err(e)?];
+            slots.clone_from(&vec![Fst::new(bytes.to_vec()).map_err(e)?]);
+            n += exercise(&slots[0], kvs, version, auts, false)?;
+        }
+        let mut ms = Map::new(other_fst_bytes().to_vec()).map_err(e)?;
+        ms.clone_from(&Map::new(bytes.to_vec()).map_err(e)?);
+        let mut ss = Set::new(other_fst_bytes().to_vec()).map_err(e)?;
+        ss.clone_from(&Set::new(bytes.to_vec()).map_err(e)?);
+        if ms.stream().into_byte_vec() != kvs || ms.len() != kvs.len() || ss.len() != kvs.len() || ss.stream().into_bytes() != kvs.iter().map(|x| x.0.clone()).collect::<Vec<_>>() {
+            return Err("Map / Set clone_from into a reader of another file differs".into());
         }
         // Map / Set wrappers
         let m = Map::new(bytes).map_err(e)?;
@@ -464,7 +489,7 @@ fn do_model(kvs: &[Kv], auts: &[TableDfa], mmap: bool, st: &mut Stats, rep: &Rep
 pub fn plan(tier: Tier) -> Plan {
     let mut p = Plan::new("C10", "model_checking");
     let thorough = tier.thorough();
-    p.rule = "every model of U_ab3 (quick: <= 4 keys and every 7th larger subset; thorough: all) x patterns {0, 3i+1, boundary values} and the fan-out families (where version 1 has no index above 32 transitions) is encoded by an independent reference encoder in versions 1, 2, 3 x layouts {suffix-shared, trie, shared with multi-transition node form only}; each file is opened from Vec, &[u8], Cow (both), Box<[u8]>, Arc<[u8]> newtype, memmap2::Mmap and through map_data, and stream/len/get/contains_key (probe closure)/range (all kind pairs)/search (sampled 2-state DFAs)/union/intersection/is_superset/is_disjoint/verify are compared with the model (verify: ChecksumMissing for v1-2, Ok for v3); golden files committed under /verif/golden; gate grid: version field in {0,1,2,3,4,255,2^32,u64::MAX} x total length 0..40 x {zero-filled, well-formed}; 110 file lengths around each of 2^12..2^17 (quick: 2^12 and 2^16) in all three versions (stream, verify, get). non-trivial = encoded files with >= 2 keys".into();
+    p.rule = "every model of U_ab3 (quick: <= 4 keys and every 7th larger subset; thorough: all) x patterns {0, 3i+1, boundary values} and the fan-out families (where version 1 has no index above 32 transitions) is encoded by an independent reference encoder in versions 1, 2, 3 x layouts {suffix-shared, trie, shared with multi-transition node form only}; each file is opened from Vec, &[u8], Cow (both), Box<[u8]>, Arc<[u8]> newtype, memmap2::Mmap, through map_data (also from readers of other files) and clone_from into readers of other files and versions, and node-by-node walk through the public node API/stream/len/get/contains_key (probe closure)/range (all kind pairs)/search (sampled 2-state DFAs)/union/intersection/is_superset/is_disjoint/verify are compared with the model (verify: ChecksumMissing for v1-2, Ok for v3); golden files committed under /verif/golden; gate grid: version field in {0,1,2,3,4,255,2^32,u64::MAX} x total length 0..40 x {zero-filled, well-formed}; 110 file lengths around each of 2^12..2^17 (quick: 2^12 and 2^16) in all three versions (stream, verify, get). non-trivial = encoded files with >= 2 keys".into();
     p.assumptions = vec![
         "no earlier fst release is available offline: 'as emitted by earlier builders' is represented by the documented layout differences (v1: no transition index; v1-2: no checksum) produced by the reference encoder".into(),
         "the reference encoder is bound to the code three ways: its v3 output is read by the real reader and passes the real verify(), every output is read back by the independent decoder, and the decoder reads the real builder's output (C09)".into(),
